@@ -4,6 +4,7 @@
 -/
 import MantraDex.Model.System
 import MantraDex.Proofs.NumLemmas
+import MantraDex.Proofs.FmLemmas
 
 set_option linter.unusedSimpArgs false
 
@@ -19,6 +20,161 @@ def newPosId (s : FmState) (id : Option String) : String :=
   | some i => C.EXPLICIT_POSITION_ID_PREFIX ++ i
   | none => nextAutoId s
 
+/-! ### helper lemmas -/
+
+theorem em_not_true {em : Option Bool} (hem : em ≠ some true) : (em == some true) = false := by
+  cases em with
+  | none => rfl
+  | some b => cases b <;> simp_all
+
+theorem getPosition_id {s : FmState} {id : String} {p : Position} (h : s.getPosition id = some p) :
+    p.id = id := by
+  unfold FmState.getPosition at h
+  simpa using List.find?_some h
+
+theorem getPosition_after_save {s2 s' : FmState} {q : Position}
+    (h : SameStore (s2.savePosition q) s') : s'.getPosition q.id = some q := by
+  rw [h.getPosition]; exact getPosition_save_same s2 q
+
+theorem getPosition_after_save_save {s0 s2 s' : FmState} {np q : Position}
+    (h12 : SameStore (s0.savePosition np) s2) (h34 : SameStore (s2.savePosition q) s')
+    (hne : np.id ≠ q.id) : s'.getPosition np.id = some np := by
+  rw [h34.getPosition, getPosition_save_other s2 q hne, h12.getPosition]
+  exact getPosition_save_same s0 np
+
+theorem oneCoin_ok {funds : List Coin} {c : Coin} (h : oneCoin funds = .ok c) : funds = [c] := by
+  unfold oneCoin at h
+  split at h
+  · split at h
+    · simp at h
+    · simp only [Except.ok.injEq] at h; subst h; rfl
+  · simp at h
+
+theorem createPosition_ok {s s' : FmState} {env : FmEnv} {sender : Addr} {funds : List Coin}
+    {id : Option String} {u : Nat} {recv : Option Addr} {r : Response}
+    (h : createPosition s env sender funds id u recv = .ok (s', r)) :
+    ∃ (lp : Coin) (p : Position) (s1 : FmState), oneCoin funds = .ok lp ∧ p.id = newPosId s id ∧
+      s.getPosition p.id = none ∧ p.open_ = true ∧ p.receiver = recv.getD sender ∧
+      p.amount = lp.amount ∧ p.lpDenom = lp.denom ∧ s1.positions = s.positions ∧
+      SameStore (s1.savePosition p) s' := by
+  unfold createPosition at h
+  cases recv <;> cases id <;>
+    simp only [bind_ok, error_bind, pure_bind', ite_error_ok, pure_ok, Prod.mk.injEq] at h
+  all_goals
+    first
+    | obtain ⟨lp, hlp, _, _, _, _, hnone, _, s3, h3, rfl, rfl⟩ := h
+    | obtain ⟨lp, hlp, _, _, _, _, _, _, hnone, _, s3, h3, rfl, rfl⟩ := h
+    refine ⟨lp, _, _, hlp, ?_, ?_, ?_, ?_, ?_, ?_, ?_, updateWeights_sameStore h3⟩
+    · rfl
+    · exact Option.not_isSome_iff_eq_none.mp hnone
+    all_goals rfl
+
+theorem expandPosition_frame {s s' : FmState} {env : FmEnv} {sender : Addr} {funds : List Coin}
+    {id2 : String} {r : Response} (h : expandPosition s env sender funds id2 = .ok (s', r)) :
+    ∃ p2, s.getPosition id2 = some p2 ∧ (p2.receiver = sender ∨ sender = s.config.poolManager) ∧
+      ∀ id, id ≠ id2 → s'.getPosition id = s.getPosition id := by
+  unfold expandPosition at h
+  cases hg : s.getPosition id2 with
+  | none => rw [hg] at h; simp [error_bind] at h
+  | some p2 =>
+    have hid := getPosition_id hg
+    rw [hg] at h
+    simp only [bind_ok, error_bind, pure_bind', ite_error_ok, ckAdd_ok, pure_ok, Prod.mk.injEq] at h
+    obtain ⟨c, hc, _, hden, hopen, hauth, a, ⟨_, rfl⟩, s2, h2, rfl, rfl⟩ := h
+    refine ⟨p2, rfl, ?_, ?_⟩
+    · simpa [Classical.or_iff_not_imp_left] using hauth
+    intro id hne
+    rw [(updateWeights_sameStore h2).getPosition, getPosition_save_other _ _ (by simpa [hid] using hne)]
+
+theorem withdraw_tail {s1 s' : FmState} {env : FmEnv} {sender : Addr} {lp : Denom} {id2 id : String}
+    {b : Bool} {R r : Response} (hne : id ≠ id2)
+    (h : (if b = true then (reconcileUserState (s1.removePosition id2) env sender lp >>= fun s3 => pure (s3, R))
+          else pure (s1.removePosition id2, R)) = .ok (s', r)) :
+    s'.getPosition id = s1.getPosition id := by
+  cases b
+  · simp only [Bool.false_eq_true, if_false, pure_ok, Prod.mk.injEq] at h
+    obtain ⟨rfl, _⟩ := h
+    exact getPosition_remove_other _ hne
+  · simp only [if_true, bind_ok, pure_ok, Prod.mk.injEq] at h
+    obtain ⟨s3, h3, rfl, _⟩ := h
+    rw [(reconcileUserState_sameStore h3).getPosition]
+    exact getPosition_remove_other _ hne
+
+theorem withdrawPosition_frame {s s' : FmState} {env : FmEnv} {sender : Addr} {funds : List Coin}
+    {id2 : String} {em : Option Bool} {r : Response}
+    (h : withdrawPosition s env sender funds id2 em = .ok (s', r)) :
+    ∃ p2, s.getPosition id2 = some p2 ∧ p2.receiver = sender ∧
+      ∀ id, id ≠ id2 → s'.getPosition id = s.getPosition id := by
+  unfold withdrawPosition at h
+  cases hg : s.getPosition id2 with
+  | none => rw [hg] at h; simp [error_bind, bind_ok] at h
+  | some p2 =>
+    rw [hg] at h
+    simp only [bind_ok, error_bind, pure_bind', ite_error_ok] at h
+    obtain ⟨_, _, hauth, h⟩ := h
+    refine ⟨p2, rfl, by simpa using hauth, ?_⟩
+    intro id hne
+    split at h
+    · simp only [bind_ok] at h
+      obtain ⟨rate, _, cur, _, active, _, sp, _, h⟩ := h
+      split at h
+      · simp only [bind_ok, pure_ok, Prod.mk.injEq] at h
+        obtain ⟨s1, h1, s3, h3, rfl, _⟩ := h
+        rw [(reconcileUserState_sameStore h3).getPosition, getPosition_remove_other _ hne,
+          (updateWeights_sameStore h1).getPosition]
+      · simp only [pure_ok, Prod.mk.injEq] at h
+        obtain ⟨rfl, _⟩ := h
+        exact getPosition_remove_other _ hne
+    · simp only [ite_error_ok] at h
+      exact withdraw_tail hne h.2.2
+
+
+theorem closePosition_frame {s s' : FmState} {env : FmEnv} {sender : Addr} {funds : List Coin}
+    {id2 : String} {lp : Option Coin} {r : Response}
+    (h : closePosition s env sender funds id2 lp = .ok (s', r)) :
+    ∃ p2, s.getPosition id2 = some p2 ∧ p2.receiver = sender ∧
+      ∀ id, id ≠ id2 → id ≠ nextAutoId s → s'.getPosition id = s.getPosition id := by
+  unfold closePosition at h
+  cases hg : s.getPosition id2 with
+  | none =>
+    rw [hg] at h
+    simp only [bind_ok, error_bind] at h
+    obtain ⟨_, _, _, _, h⟩ := h
+    split at h <;> simp at h
+  | some p2 =>
+    have hid := getPosition_id hg
+    rw [hg] at h
+    simp only [bind_ok, error_bind, pure_bind', ite_error_ok, fit_ok] at h
+    obtain ⟨_, _, _, _, _, hauth, _, a, ⟨_, rfl⟩, b, ⟨_, rfl⟩, _, h⟩ := h
+    refine ⟨p2, rfl, by simpa using hauth, ?_⟩
+    intro id hne hna
+    have full : ∀ {q : Position} {R : Response},
+        (updateWeights s env sender p2.lpDenom p2.amount p2.unlocking false >>= fun s2 =>
+          reconcileUserState (s2.savePosition q) env sender p2.lpDenom >>= fun s4 =>
+          pure (s4, R)) = Except.ok (s', r) → q.id = p2.id → s'.getPosition id = s.getPosition id := by
+      intro q R h hq
+      simp only [bind_ok, pure_ok, Prod.mk.injEq] at h
+      obtain ⟨s2, h2, s4, h4, rfl, _⟩ := h
+      rw [(reconcileUserState_sameStore h4).getPosition,
+        getPosition_save_other _ _ (by rw [hq, hid]; exact hne),
+        (updateWeights_sameStore h2).getPosition]
+    cases lp with
+    | none => exact full h rfl
+    | some c =>
+      simp only [ite_error_ok] at h
+      obtain ⟨_, h⟩ := h
+      split at h
+      · exact full h rfl
+      · simp only [ite_ok_error, ite_error_ok, bind_ok, pure_ok, Prod.mk.injEq] at h
+        obtain ⟨_, _, s2, h2, s4, h4, rfl, _⟩ := h
+        rw [(reconcileUserState_sameStore h4).getPosition,
+          getPosition_save_other _ _ (by rw [hid]; exact hne),
+          (updateWeights_sameStore h2).getPosition,
+          getPosition_save_other _ _ hna]
+        rfl
+
+/-! ### the properties -/
+
 /-- a withdrawal without the emergency flag is accepted only for a closed position whose unlock
     instant (close time + unlocking duration) has been reached — boundary second included -/
 theorem normal_withdraw_requires_unlock {s s' : FmState} {env : FmEnv} {sender : Addr}
@@ -26,7 +182,18 @@ theorem normal_withdraw_requires_unlock {s s' : FmState} {env : FmEnv} {sender :
     (hp : s.getPosition id = some p) (hem : em ≠ some true)
     (h : withdrawPosition s env sender funds id em = .ok (s', r)) :
     p.receiver = sender ∧ ∃ t, p.expiringAt = some t ∧ t ≤ env.nowS := by
-  sorry
+  have hem' := em_not_true hem
+  unfold withdrawPosition at h
+  rw [hp] at h
+  simp only [bind_ok, hem', Bool.false_and, Bool.false_eq_true, if_false, error_bind, pure_bind',
+    ite_error_ok] at h
+  obtain ⟨_, _, h1, h2, h3, _⟩ := h
+  refine ⟨by simpa using h1, ?_⟩
+  cases he : p.expiringAt with
+  | none => simp [he] at h2
+  | some t =>
+    refine ⟨t, rfl, ?_⟩
+    simpa [PosView.isExpired, he] using h3
 
 /-- … and then pays the owner exactly the recorded amount and deletes the position; nothing else -/
 theorem normal_withdraw_pays_exact {s s' : FmState} {env : FmEnv} {sender : Addr}
@@ -35,14 +202,26 @@ theorem normal_withdraw_pays_exact {s s' : FmState} {env : FmEnv} {sender : Addr
     (h : withdrawPosition s env sender funds id em = .ok (s', r)) :
     r.msgs.map (·.msg) = (if p.amount ≠ 0 then [Msg.bankSend p.receiver [⟨p.lpDenom, p.amount⟩]] else []) ∧
     s'.positions = s.positions.filter (·.id != id) ∧ s'.farms = s.farms ∧ s'.hist = s.hist := by
-  sorry
+  have hem' := em_not_true hem
+  unfold withdrawPosition at h
+  rw [hp] at h
+  simp only [bind_ok, hem', Bool.false_and, Bool.false_eq_true, if_false, error_bind, pure_bind',
+    ite_error_ok, hclosed, pure_ok, Prod.mk.injEq, List.nil_append] at h
+  obtain ⟨_, _, h1, h2, h3, rfl, rfl⟩ := h
+  refine ⟨?_, rfl, rfl, rfl⟩
+  simp only [Response.ofMsgs, List.map_map]
+  split <;> simp
 
 /-- an emergency request on an already unlocked position is an ordinary full withdrawal -/
 theorem emergency_after_unlock_is_normal {s : FmState} {env : FmEnv} {sender : Addr}
     {funds : List Coin} {id : String} {p : Position} {t : Nat}
     (hp : s.getPosition id = some p) (ht : p.expiringAt = some t) (hexp : t ≤ env.nowS) :
     withdrawPosition s env sender funds id (some true) = withdrawPosition s env sender funds id none := by
-  sorry
+  have hx : (PosView.isExpired ⟨p.amount, p.unlocking, p.expiringAt⟩ env.nowS) = true := by
+    simp [PosView.isExpired, ht, hexp]
+  unfold withdrawPosition
+  rw [hp]
+  simp only [pure_bind', hx, Bool.not_true, Bool.and_false, Bool.false_eq_true, if_false]
 
 /-- closing fixes the unlock instant at (now + unlocking duration), in seconds -/
 theorem close_sets_expiry {s s' : FmState} {env : FmEnv} {sender : Addr} {funds : List Coin}
@@ -52,7 +231,14 @@ theorem close_sets_expiry {s s' : FmState} {env : FmEnv} {sender : Addr} {funds 
     ∃ p', s'.getPosition id = some p' ∧ p'.open_ = false ∧ p'.amount = p.amount ∧
       p'.receiver = p.receiver ∧ p'.lpDenom = p.lpDenom ∧
       p'.expiringAt = some ((env.nowNs + p.unlocking * NANOS) / NANOS) := by
-  sorry
+  have hid := getPosition_id hp
+  unfold closePosition at h
+  rw [hp] at h
+  simp only [bind_ok, error_bind, pure_bind', ite_error_ok, fit_ok, pure_ok, Prod.mk.injEq] at h
+  obtain ⟨_, _, _, _, _, _, _, a, ⟨_, rfl⟩, b, ⟨_, rfl⟩, _, s2, _, s4, h4, rfl, rfl⟩ := h
+  have hg := getPosition_after_save (reconcileUserState_sameStore h4)
+  simp only [hid] at hg
+  exact ⟨_, hg, rfl, rfl, rfl, rfl, rfl⟩
 
 /-- a partial close splits the position without creating or losing LP: the open remainder keeps the
     identifier, the closed part gets the next generated identifier, same owner, same denom -/
@@ -66,7 +252,22 @@ theorem partial_close_splits {s s' : FmState} {env : FmEnv} {sender : Addr} {fun
       rem.open_ = true ∧ part.open_ = false ∧ rem.amount + part.amount = p.amount ∧ part.amount = c.amount ∧
       rem.receiver = p.receiver ∧ part.receiver = p.receiver ∧ rem.lpDenom = p.lpDenom ∧
       part.lpDenom = p.lpDenom ∧ part.expiringAt.isSome := by
-  sorry
+  have hid := getPosition_id hp
+  have hne : ¬ (c.amount = p.amount) := by omega
+  unfold closePosition at h
+  rw [hp] at h
+  simp only [bind_ok, error_bind, pure_bind', ite_error_ok, fit_ok, pure_ok, Prod.mk.injEq, hne, hlt,
+    if_true, if_false] at h
+  obtain ⟨_, _, _, _, _, _, hopen, a, ⟨_, rfl⟩, b, ⟨_, rfl⟩, _, hden, _, s2, h2, s4, h4, rfl, rfl⟩ := h
+  have hopen' : p.open_ = true := by simpa using hopen
+  have hden' : c.denom = p.lpDenom := by simpa using hden
+  have hg1 := getPosition_after_save (reconcileUserState_sameStore h4)
+  have hg2 := getPosition_after_save_save (updateWeights_sameStore h2) (reconcileUserState_sameStore h4)
+      (by rw [hid]; exact hfresh)
+  simp only [hid] at hg1
+  refine ⟨_, _, hg1, hg2, hopen', rfl, ?_, rfl, rfl, rfl, rfl, hden', rfl⟩
+  show p.amount - c.amount + c.amount = p.amount
+  omega
 
 /-- expanding adds exactly the attached amount to the recorded amount -/
 theorem expand_adds_exact {s s' : FmState} {env : FmEnv} {sender : Addr} {funds : List Coin}
@@ -74,7 +275,17 @@ theorem expand_adds_exact {s s' : FmState} {env : FmEnv} {sender : Addr} {funds 
     (h : expandPosition s env sender funds id = .ok (s', r)) :
     ∃ c p', funds = [c] ∧ c.denom = p.lpDenom ∧ s'.getPosition id = some p' ∧
       p'.amount = p.amount + c.amount ∧ p'.receiver = p.receiver ∧ p'.open_ = true := by
-  sorry
+  have hid := getPosition_id hp
+  unfold expandPosition at h
+  rw [hp] at h
+  simp only [bind_ok, error_bind, pure_bind', ite_error_ok, ckAdd_ok, pure_ok, Prod.mk.injEq] at h
+  obtain ⟨c, hc, _, hden, hopen, _, a, ⟨_, rfl⟩, s2, h2, rfl, rfl⟩ := h
+  have hg := getPosition_after_save (updateWeights_sameStore h2)
+  simp only [hid] at hg
+  refine ⟨c, _, oneCoin_ok hc, ?_, hg, rfl, rfl, ?_⟩
+  · have : p.lpDenom = c.denom := by simpa using hden
+    exact this.symm
+  · simpa using hopen
 
 /-- frame: a message from anybody who is neither the owner nor the pool manager leaves the
     position exactly as it was (given that the next generated identifier is free, which the
@@ -84,7 +295,52 @@ theorem others_cannot_touch_position {s s' : FmState} {env : FmEnv} {sender : Ad
     (hp : s.getPosition id = some p) (hno : p.receiver ≠ sender) (hpm : sender ≠ s.config.poolManager)
     (hfresh : nextAutoId s ≠ id)
     (h : fmExecute s env sender funds m = .ok (s', r)) : s'.getPosition id = some p := by
-  sorry
+  rw [← hp]
+  cases m with
+  | createFarm fp => exact getPosition_congr (createFarm_positions h) id
+  | expandFarm fp => exact getPosition_congr (expandFarm_positions _ _ h) id
+  | closeFarm fid => exact getPosition_congr (closeFarm_positions _ _ h) id
+  | claim u => exact getPosition_congr (fmClaim_positions h) id
+  | createPosition i u rcv =>
+    obtain ⟨lp, q, s1, _, _, hnone, _, _, _, _, hs1, hss⟩ := createPosition_ok h
+    have hne : id ≠ q.id := by
+      intro e; rw [← e, hp] at hnone; simp at hnone
+    rw [hss.getPosition, getPosition_save_other _ _ hne]
+    exact getPosition_congr hs1 id
+  | expandPosition id2 =>
+    obtain ⟨p2, hg, hauth, hfr⟩ := expandPosition_frame h
+    by_cases e : id = id2
+    · subst e
+      rw [hp] at hg
+      obtain rfl := Option.some.inj hg
+      rcases hauth with h1 | h1
+      · exact absurd h1 hno
+      · exact absurd h1 hpm
+    · exact hfr id e
+  | closePosition id2 lp =>
+    obtain ⟨p2, hg, hauth, hfr⟩ := closePosition_frame h
+    by_cases e : id = id2
+    · subst e
+      rw [hp] at hg
+      obtain rfl := Option.some.inj hg
+      exact absurd hauth hno
+    · exact hfr id e (Ne.symm hfresh)
+  | withdrawPosition id2 em =>
+    obtain ⟨p2, hg, hauth, hfr⟩ := withdrawPosition_frame h
+    by_cases e : id = id2
+    · subst e
+      rw [hp] at hg
+      obtain rfl := Option.some.inj hg
+      exact absurd hauth hno
+    · exact hfr id e
+  | updateConfig u =>
+    simp only [fmExecute, bind_ok] at h
+    obtain ⟨_, _, h⟩ := h
+    exact getPosition_congr (fmUpdateConfig_positions _ _ h) id
+  | updateOwnership a =>
+    simp only [fmExecute, bind_ok, pure_ok, Prod.mk.injEq] at h
+    obtain ⟨_, _, o, _, rfl, _⟩ := h
+    rfl
 
 /-- identifiers of new positions: `u-<given>` or `p-<counter+1>`, and never an existing one -/
 theorem create_position_identifier {s s' : FmState} {env : FmEnv} {sender : Addr} {funds : List Coin}
@@ -92,6 +348,14 @@ theorem create_position_identifier {s s' : FmState} {env : FmEnv} {sender : Addr
     (h : createPosition s env sender funds id u recv = .ok (s', r)) :
     s.getPosition (newPosId s id) = none ∧ ∃ p, s'.getPosition (newPosId s id) = some p ∧ p.open_ = true ∧
         p.receiver = (recv.getD sender) ∧ (∀ c, funds = [c] → p.amount = c.amount ∧ p.lpDenom = c.denom) := by
-  sorry
+  obtain ⟨lp, p, s1, hlp, hid, hnone, hopen, hrecv, hamt, hden, _, hss⟩ := createPosition_ok h
+  rw [← hid]
+  refine ⟨hnone, p, getPosition_after_save hss, hopen, hrecv, ?_⟩
+  intro c hc
+  have := oneCoin_ok hlp
+  rw [hc] at this
+  simp only [List.cons.injEq, and_true] at this
+  subst this
+  exact ⟨hamt, hden⟩
 
 end MantraDex.C08
